@@ -12,6 +12,16 @@ instant of the inner call is the exact injected latency.
 clone of the pristine service per request); the twin instance is always one handle, never cloned, and
 its `call()` is made at the first poll (A: at `arrive`).
 
+Latency bounds: any `Duration` in whole microseconds (`min_us`, `max_us`), from 0 to hours. About a quarter of the
+cases have bounds of one second and more (1000, 1001, 1200..2800, 60000 ms, hours; min = max, min > max, min below and
+max above a second, sub-millisecond remainders); their clock is advanced in jumps to just before / at / just after the
+bounds (and to the sub-second parts of the bounds), so the delayed calls complete and the instants are exact.
+
+`manual dropsvc`: every handle of instance A and of the twin, and the layers, are dropped — between the `arrive` and
+the first `poll` of pending requests, and later. Requests that arrived before are decided at their first poll as if
+nothing had happened (the decision belongs to the request's first poll and to the seed's stream, not to the lifetime
+of a handle); later `arrive`s are `noop`.
+
 `manual stress threads=<N> calls=<K>`: real-OS-thread stress search on a separate, freshly built and equally
 seeded instance (N threads with a clone each, K calls in total, first poll only). A SEARCH, NOT A PROOF:
 whether a race shows depends on the machine's scheduling. Oracles = the property's clauses (see
@@ -66,6 +76,111 @@ def bounds(rng):
     if rng.random() < 0.15:
         mx_us += rng.choice([1, 500, 999])
     return mn_us, mx_us
+
+
+HOUR = 3600 * 1000
+
+
+def long_bounds(rng):
+    """bounds of one second and more, in ms: the whole seconds of a bound count"""
+    r = rng.random()
+    if r < 0.12:                                   # min below a second, max at / above it
+        mn = rng.choice([0, 1, 500, 900, 999, rng.randint(0, 999)])
+        mx = rng.choice([1000, 1001, 1100, 1999, 2000, 2500, 60000, 1000 + rng.randint(0, 3000)])
+        return mn, mx
+    mn = rng.choice([1000, 1000, 1000, 1001, 1200, 1200, 1500, 1999, 2000, 2800, 3000, 60000, 60001, HOUR, 2 * HOUR,
+                     5 * HOUR + 1234, rng.randint(1000, 5000), rng.randint(1000, 200000)])
+    r = rng.random()
+    if r < 0.30:
+        mx = mn                                    # min = max
+    elif r < 0.45:                                 # min > max, also with the same or a larger sub-second part
+        mx = rng.choice([mn - 1, mn - 1000, mn % 1000, 999, 0, mn - rng.randint(1, mn), max(0, mn - 1000 + rng.randint(0, 999))])
+    elif r < 0.55:
+        mx = mn + 1
+    elif r < 0.85:
+        mx = mn + rng.choice([50, 999, 1000, 1600, rng.randint(1, 3000)])
+    else:
+        mx = mn + rng.choice([60000, HOUR, rng.randint(1, 10 ** 6)])
+    return mn, max(0, mx)
+
+
+def sub_ms(rng, mn, mx):
+    mn_us, mx_us = mn * 1000, mx * 1000
+    if rng.random() < 0.15:                        # sub-millisecond parts are truncated by as_millis()
+        mn_us += rng.choice([1, 500, 999])
+    if rng.random() < 0.15:
+        mx_us += rng.choice([1, 500, 999])
+    return mn_us, mx_us
+
+
+def checkpoints(rng, mn, mx):
+    """instants (after the first polls) at which a case with long bounds polls everything: around the bounds, a few
+    inside the range, and around the sub-second parts of the bounds"""
+    lo, hi = mn, max(mn, mx)
+    pts = {lo - 1, lo, lo + 1, hi - 1, hi, hi + 1, mn % 1000, mx % 1000, mn % 1000 + 1}
+    if hi > lo:
+        for _ in range(rng.randint(1, 4)):
+            x = rng.randint(lo, hi)
+            pts |= {x, x + rng.choice([0, 1])}
+    if rng.random() < 0.5:
+        pts.add(rng.randint(0, max(1, lo)))
+    keep = {lo, hi, hi + 1}                        # always: at the lower bound, at and after the upper bound
+    pts = sorted(x for x in pts if x > 0 and (x in keep or rng.random() < 0.75))
+    return pts
+
+
+def gen_long(rng, hdr, mn, mx, dropsvc):
+    """Requests under bounds of a second and more: first polls at the start (or spread over a few ms), then the clock
+    jumps from checkpoint to checkpoint and everything is polled at each. `dropsvc`: None | 'pending' (between the
+    arrivals and the first polls) | 'mid' (somewhere among the first polls) | 'late' (while requests sleep)."""
+    ops = ["probe cfg"]
+    ncall = rng.randint(1, 8)
+    ids = list(range(1, ncall + 1))
+    maxlat = 0
+    for c in ids:
+        lat = rng.choice([0, 0, 1, 3, 1000, 2500])
+        maxlat = max(maxlat, lat)
+        ops.append("arrive %d tag=%d inner=%d:%s" % (c, rng.randint(0, 99), lat, pick_out(rng)))
+    order = ids[:]
+    if rng.random() < 0.5:
+        rng.shuffle(order)
+    if dropsvc == "pending":
+        ops.append("manual dropsvc")
+    mid = rng.randint(0, len(order)) if dropsvc == "mid" else -1
+    spread = 0
+    for n, c in enumerate(order):
+        if n == mid:
+            ops.append("manual dropsvc")
+        ops.append("poll %d" % c)
+        if rng.random() < 0.25:
+            d = rng.choice([1, 1, 2, 999, 1000])
+            ops.append("adv %d" % d)
+            spread += d
+    if mid == len(order):
+        ops.append("manual dropsvc")
+    if dropsvc is not None and rng.random() < 0.5:
+        ops.append("arrive %d tag=%d inner=0:ok" % (ncall + 1, ncall + 1))      # noop: no handle left
+        ops.append("poll %d" % (ncall + 1))
+    if rng.random() < 0.2 and order:
+        ops.append("drop %d" % rng.choice(order))
+    pts = checkpoints(rng, mn, mx)
+    late_at = rng.randint(0, len(pts)) if dropsvc == "late" else -1
+    now = 0
+    for n, x in enumerate(pts):
+        if n == late_at:
+            ops.append("manual dropsvc")
+        ops.append("adv %d" % (x - now))
+        now = x
+        ops.append("settle")
+    if late_at == len(pts):
+        ops.append("manual dropsvc")
+    # far enough for every delayed call (first polled up to `spread` late) and its inner latency to complete
+    ops.append("adv %d" % (spread + 1))
+    ops.append("settle")
+    if maxlat:
+        ops.append("adv %d" % maxlat)
+        ops.append("settle")
+    return {"header": hdr, "ops": ops}
 
 
 def pick_out(rng):
@@ -124,7 +239,8 @@ def gen(rng, tier):
     if has_e:
         hdr += " erate=%s" % rate_spec(rng, "e")
     hdr += " lrate=%s" % rate_spec(rng, "l")
-    mn_us, mx_us = bounds(rng)
+    long = rng.random() < 0.24
+    mn_us, mx_us = sub_ms(rng, *long_bounds(rng)) if long else bounds(rng)
     hdr += " min_us=%d max_us=%d" % (mn_us, mx_us)
     if has_e and rng.random() < 0.4:
         hdr += " order=1"
@@ -132,6 +248,11 @@ def gen(rng, tier):
         hdr += " handles=%d" % rng.choice([1, 2, 2, 3, 5])
     mn, mx = mn_us // 1000, mx_us // 1000
     top = max(mn, mx)
+    # every handle dropped: between the arrivals and the first polls / among the first polls / later / anywhere
+    r = rng.random()
+    dropsvc = None if r < 0.72 else "pending" if r < 0.84 else "mid" if r < 0.92 else "late"
+    if long and rng.random() < 0.6:
+        return gen_long(rng, hdr, mn, mx, dropsvc)
     ops = ["probe cfg"]
     ncall = rng.randint(1, 12)
     sweep = rng.random() < 0.45 and top <= 25
@@ -146,37 +267,67 @@ def gen(rng, tier):
         order = ids[:]
         if rng.random() < 0.5:
             rng.shuffle(order)
+        if dropsvc == "pending":
+            ops.append("manual dropsvc")
+        mid = rng.randint(0, len(order)) if dropsvc == "mid" else -1
         # first polls: all at t=0, or staggered over the first few ticks
         stagger = rng.random() < 0.4
         t_extra = 0
-        for c in order:
+        for n, c in enumerate(order):
+            if n == mid:
+                ops.append("manual dropsvc")
             ops.append("poll %d" % c)
             if stagger and rng.random() < 0.4:
                 ops.append("adv 1")
                 ops.append("settle")
                 t_extra += 1
+        if mid == len(order):
+            ops.append("manual dropsvc")
+        if dropsvc is not None and rng.random() < 0.4:
+            ops.append("arrive %d tag=%d inner=0:ok" % (ncall + 1, ncall + 1))  # noop: no handle left
+            ops.append("poll %d" % (ncall + 1))
         if rng.random() < 0.2 and order:
             ops.append("drop %d" % rng.choice(order))
-        for _ in range(top + maxlat + 2):
+        ticks = top + maxlat + 2
+        late_at = rng.randint(0, ticks) if dropsvc == "late" else -1
+        for n in range(ticks):
+            if n == late_at:
+                ops.append("manual dropsvc")
             ops.append("adv 1")
             ops.append("settle")
         return {"header": hdr, "ops": ops}
     pending = list(range(1, ncall + 1))
     arrived = []
+    unpolled = set()
     now = 0
     marks = []
+    gone = False
+    # `pending`: at a moment when some request has arrived and has not been polled; otherwise anywhere
+    drop_p = {None: 0.0, "pending": 0.5, "mid": 0.08, "late": 0.04}[dropsvc]
+    poll_p = 0.25 if dropsvc == "pending" else 0.6
     for _ in range(rng.randint(6, 40)):
         r = rng.random()
+        if not gone and drop_p and (unpolled or dropsvc != "pending") and arrived and rng.random() < drop_p:
+            ops.append("manual dropsvc")
+            gone = True
+            continue
         if pending and (r < 0.3 or not arrived):
             c = pending.pop(0)
             lat = rng.choice([0, 0, 1, 5, rng.randint(0, 20)])
             ops.append("arrive %d tag=%d inner=%d:%s" % (c, rng.choice([c, rng.randint(0, 99)]), lat, pick_out(rng)))
             arrived.append(c)
-            if rng.random() < 0.6:
+            if not gone:
+                unpolled.add(c)
+            if rng.random() < poll_p:
                 ops.append("poll %d" % c)
+                unpolled.discard(c)
                 marks += [now + mn, now + mx, now + mn + lat, now + mx + lat]
+                if long:
+                    marks += [now + mn % 1000, now + mx % 1000]
         elif r < 0.55 and arrived:
-            ops.append("poll %d" % rng.choice(arrived))
+            c = rng.choice(arrived)
+            ops.append("poll %d" % c)
+            unpolled.discard(c)
             marks += [now + mn, now + mx]
         elif r < 0.62 and arrived:
             ops.append("drop %d" % rng.choice(arrived))
@@ -190,9 +341,14 @@ def gen(rng, tier):
             now += d
         else:
             ops.append("settle")
-    if rng.random() < 0.7:
-        ops.append("adv %d" % rng.choice([0, 1, top, top + 1, 50]))
+    if dropsvc is not None and not gone and rng.random() < 0.7:
+        ops.append("manual dropsvc")
+    if rng.random() < (0.9 if long else 0.7):
+        ops.append("adv %d" % (rng.choice([top, top + 1, top + 21]) if long else rng.choice([0, 1, top, top + 1, 50])))
         ops.append("settle")
+        if long and rng.random() < 0.7:            # …and the requests first polled by that settle
+            ops.append("adv %d" % (top + 21))
+            ops.append("settle")
     if rng.random() < 0.3:
         ops.append("dropall")
     return {"header": hdr, "ops": ops}
@@ -357,13 +513,18 @@ def _poll_instants(case):
     now = 0
     arrived, gone = [], set()
     polls = {}
+    nosvc = False
     for o in case["ops"]:
         w = o.split()
         if not w:
             continue
         if w[0] == "adv":
             now += int(w[1])
+        elif w[:2] == ["manual", "dropsvc"]:
+            nosvc = True
         elif w[0] == "arrive" and int(w[1]) not in arrived:
+            if nosvc:
+                gone.add(int(w[1]))               # no handle left: the request is never made
             arrived.append(int(w[1]))
         elif w[0] == "poll" and int(w[1]) in arrived and int(w[1]) not in gone:
             polls.setdefault(int(w[1]), []).append(now)
@@ -391,6 +552,13 @@ def mon_latency(case, lines, meta):
     hi = mx if mn <= mx else mn
     always = i["eT"] == 0 and i["lT"] == P53      # every request is delayed
     polls = _poll_instants(case)
+    # the delay the layer itself reports for a request (`on_latency_injected`)
+    _, _, seen, _ = _decisions(meta)
+    for c in sorted(seen):
+        for d in seen[c]:
+            if d.startswith("lat:") and not lo <= int(d[4:]) <= hi:
+                return ("request %d: the layer reports an injected latency of %s ms, outside [min_latency, max_latency] = [%d,%d] ms%s"
+                        % (c, d[4:], mn, mx, "" if mn <= mx else " (min > max: min_latency is used)"))
     for c, t0 in i["fp"].items():
         ps = polls.get(c, [])
         if c in i["call"]:
@@ -417,6 +585,31 @@ def transitions(case, lines, meta=None):
     tags = []
     mn, mx = int(cfg.get("min_us", "0")) // 1000, int(cfg.get("max_us", "0")) // 1000
     tags.append("range-" + ("eq" if mn == mx else "inverted" if mn > mx else "proper"))
+    if mn >= 1000:
+        tags.append("min-at-least-1s")
+        tags.append("long-range-" + ("eq" if mn == mx else "inverted" if mn > mx else "proper"))
+    elif mx >= 1000:
+        tags.append("max-only-at-least-1s")
+    if max(mn, mx) >= HOUR:
+        tags.append("bounds-hours")
+    if (int(cfg.get("min_us", "0")) % 1000 or int(cfg.get("max_us", "0")) % 1000) and max(mn, mx) >= 1000:
+        tags.append("long-bounds-sub-ms-part")
+    nosvc = False
+    for _, m in (meta or []):
+        w = m.split()
+        if w[0] == "#dropsvc":
+            nosvc = True
+            tags.append("dropsvc")
+        elif w[0] == "#fp" and nosvc:
+            tags.append("first-poll-after-dropsvc")
+    after = False
+    for o in case["ops"]:
+        w = o.split()
+        if w[:2] == ["manual", "dropsvc"]:
+            after = True
+        elif after and nosvc and w[:1] == ["arrive"]:
+            tags.append("arrive-after-dropsvc")
+            break
     if "erate" not in cfg:
         tags.append("no-error-injector")
     for k in ("erate", "lrate"):
@@ -429,10 +622,16 @@ def transitions(case, lines, meta=None):
     if int(cfg.get("handles", "0")) > 0:
         tags.append("handles-kept")
     fp = {}
+    for _, m in (meta or []):
+        w = m.split()
+        if w[0] == "#fp":
+            fp[int(w[1])] = int(w[2])
     for l in lines:
         t, w = tparse(l)
         if not w:
             continue
+        if w[0] == "inner_call" and t is not None and int(w[1]) in fp and t - fp[int(w[1])] >= 1000:
+            tags.append("delay-of-seconds-completed")
         if w[0] == "probe":
             kv = kvs(l)
             e, ll = int(kv["eT"]), int(kv["lT"])
@@ -459,7 +658,7 @@ def transitions(case, lines, meta=None):
 
 
 def transitions_meta(case, lines, meta):
-    return transitions(case, lines)
+    return transitions(case, lines, meta)
 
 
 def nontrivial(case, lines, tags):
@@ -469,7 +668,9 @@ def nontrivial(case, lines, tags):
 ALL = ["range-eq", "range-inverted", "range-proper", "no-error-injector", "rate-on-a-roll", "rate-off-grid", "sweep",
        "erate-0", "erate-1", "erate-mid", "lrate-0", "lrate-1", "lrate-mid", "inner-call", "dropped-running",
        "error-injected", "result-ok", "result-err", "result-panic", "handles-kept", "stress-run", "stress-all-error",
-       "stress-all-pass", "stress-all-delay", "stress-mixed"]
+       "stress-all-pass", "stress-all-delay", "stress-mixed", "min-at-least-1s", "long-range-eq", "long-range-inverted",
+       "long-range-proper", "max-only-at-least-1s", "bounds-hours", "long-bounds-sub-ms-part", "delay-of-seconds-completed",
+       "dropsvc", "first-poll-after-dropsvc", "arrive-after-dropsvc"]
 
 LEVEL_NOTE = ("Trusted: Lean kernel; the line-by-line reading of service.rs:64-152 as TR.Model.Chaos.decideG / the poll-level machine, validated by the "
               "sampled correspondence check; rand's StdRng, random::<f64>() (= 53-bit numerator * 2^-53, < 1) and random_range(a..=b) in [a,b], which "
@@ -485,13 +686,17 @@ COMMON = {
     "transitions": transitions,
     "nontrivial": nontrivial,
     "all_transitions": ALL,
-    "model_modules": ["TR.Model.Chaos", "TR.Lemmas.Chaos", "TR.Lemmas.ChaosStress"],
-    "lean_files": ["TR.Model.Chaos", "TR.Lemmas.Chaos", "TR.Lemmas.ChaosStress"],
+    "model_modules": ["TR.Model.Chaos", "TR.Lemmas.Chaos", "TR.Lemmas.ChaosStress", "TR.Lemmas.ChaosHandles"],
+    "lean_files": ["TR.Model.Chaos", "TR.Lemmas.Chaos", "TR.Lemmas.ChaosStress", "TR.Lemmas.ChaosHandles"],
     "sizes": (600, 30000),
     "rule": "seeded random cases: seed (fixed and random u64), error/latency rates as thresholds n/2^53 (0, 1, 2^-53, 1-2^-53, 1/2, random), arbitrary "
             "f64 bit patterns incl. subnormal and out-of-range, or placed exactly on / one step next to the i-th roll of the seed's stream; "
-            "min/max latency with min=max, min>max, sub-millisecond parts; 1..12 requests, shuffled first-poll order, drops; either 1 ms sweeps "
-            "(exact latency) or random advances biased to min-1/min/max/max+1; requests served by a fresh clone each or by k kept handles; every "
+            "min/max latency with min=max, min>max, sub-millisecond parts; about a quarter of the cases with bounds of a second and more (1000, 1001, "
+            "1200..2800, 60000 ms, hours; min below and max above a second), the clock jumping to just before / at / after the bounds and to their "
+            "sub-second parts so that the delayed calls complete; 1..12 requests, shuffled first-poll order, drops; either 1 ms sweeps "
+            "(exact latency) or random advances biased to min-1/min/max/max+1; requests served by a fresh clone each or by k kept handles; in about "
+            "28% of the cases every handle of the service (and of the twin, and the layers) is dropped between the arrivals and the first polls, "
+            "among the first polls, or later (`manual dropsvc`; later arrivals are noop); every "
             "request is also given to a second equally seeded instance driven differently (one handle, call() at the first poll) and compared with "
             "decision i of a free-running oracle generator; about 2% (quick) / 1.2% (thorough) of the cases are real-thread stress runs "
             "(2-16 OS threads on clones of one seeded service, 20k-160k calls quick, 50k-800k thorough; rate 1, rates 0, latency rate 1, mid rates); "
@@ -515,7 +720,10 @@ COMMON = {
                   "latency lies in [min,max], equals min when min>=max, and is real virtual time (latency_*); an injected error consumes exactly the error "
                   "roll (no_latency_on_error); any interleaving of the threads' requests gives the same multiset of decisions, all 'error' at rate 1 for "
                   "any number of calls, and the tallies of every seed's stream pass the model's stress check (interleaving_multiset, interleavings_agree, "
-                  "always_fails_stream, transparent_stream, stress_oracle_sound) — given that a request's rolls are drawn atomically. Model tied to the "
+                  "always_fails_stream, transparent_stream, stress_oracle_sound) — given that a request's rolls are drawn atomically; dropping every handle "
+                  "of the service at any point leaves the run what it is without that operation and without the later arrivals (handles_dropped_no_effect, "
+                  "first_poll_after_handles_dropped, always_fails_after_handles_dropped); the whole seconds of a bound count (bound_in_ms, "
+                  "latency_at_least_min, one_second_is_one_second). Model tied to the "
                   "real ChaosLayer by line-for-line agreement with draws taken from a mirror StdRng, plus a differently driven twin instance, a "
                   "free-running oracle generator, and a bounded real-thread stress search for the atomicity assumption.",
 }
